@@ -52,7 +52,11 @@ Inductive stmt :=
 Inductive body := BCode (b : list stmt) | BForward (c : N).
 
 Record mdef := { m_name : N; m_static : bool; m_params : list N; m_body : body }.
-Record cdef := { c_name : N; c_methods : list mdef }.
+(* [c_base]: the class named in the class statement's base list (None: object).  The semantics below does NOT look
+   methods up in base classes: programs with a base class are outside the theorems' domain ([Refactor.side] asks for
+   c_base = None everywhere); the field exists so that EncapsulateField's refusal over INHERITED accessor names
+   ([Refactor.enc_refuses]) can be stated and compared with rope. *)
+Record cdef := { c_name : N; c_base : option N; c_methods : list mdef }.
 Record prog := { p_classes : list cdef; p_funcs : list mdef; p_main : list stmt }.
 
 Definition init_name : N := 0%N.     (* the interned spelling of "__init__" is always 0 *)
